@@ -239,12 +239,14 @@ pub struct Obtained {
     pub bytes: Bytes,
 }
 
+#[derive(Clone)]
 pub struct Flight {
     pkt: usize,
     due: u32,
 }
 
 /// The two real endpoints.
+#[derive(Clone)]
 pub struct Ends {
     pub a: RenetClient,
     pub b: RenetServer,
@@ -371,6 +373,7 @@ pub trait Probe {
     }
 }
 
+#[derive(Clone)]
 pub struct Link<'c> {
     pub cfg: &'c LinkCfg,
     pub ends: Ends,
